@@ -48,6 +48,35 @@ REGISTRY = {
         engine="E4a taint + E4c sign + E7 structural",
         ref="DESIGN.md §4 C05",
     ),
+    "C06": dict(
+        text="Structural decision of the detector's defining facts for all maps: the selection mask is the conjunction of two "
+        "STRICT comparisons of the undilated map with its dilation and with the threshold; the dilation kernel is the 3x3 "
+        "literal with centre 0 and eight non-zero neighbours, applied per (sample, channel) map; the subscript columns "
+        "produced by where() of the permuted mask are consumed consistently with that permutation (value read at the very "
+        "cell, points = (width-axis column, height-axis column), sample/channel = columns of axes 0/1); the per-peak crop "
+        "index sample*channels+channel agrees with the (samples*channels) flattening; every return path of find_local_peaks "
+        "keeps the rough detector's values/sample/channel vectors and refined = rough + (dx, dy) on the centred patch grid.",
+        note="Trusted: ast, kornia dilation = max over the kernel support, torch.where subscript order. Not decided: "
+        "completeness/soundness against a brute-force scan on arbitrary maps, plateaus, the half-patch bound (false for "
+        "negative-valued maps).",
+        technique="comparison-strictness / kernel-literal / index-permutation agreement rules + def-use",
+        engine="E7 structural",
+        ref="DESIGN.md §4 C06",
+    ),
+    "C07": dict(
+        text="Backward def-use slices of the x and y columns of the reported global peak show that both come from ONE "
+        "index-producing reduction over the flattened H*W extent of each map, decomposed by % W and // W with W the last "
+        "dimension, and that the reported value is that reduction's maximum - two independent per-axis arg-max chains (the "
+        "original defect) are reported; coordinates->NaN and value->0 use one mask `value < threshold` computed before "
+        "the stores, both dominating the return; in find_global_peaks one index set selects the boxed peaks, the cropped "
+        "maps (flattened identically) and the rows receiving offsets; refinement works on a clone with (dx, dy) on the "
+        "centred grid.",
+        note="Trusted: ast, networkx, torch.max returning one consistent maximal element. Not decided: refinement bounded by "
+        "half a patch, symmetric bumps unmoved, refinement moving toward the true centre (numerical).",
+        technique="backward def-use slicing of reductions + CFG dominance + index-set agreement",
+        engine="E7 structural + E3 flow",
+        ref="DESIGN.md §4 C07",
+    ),
     "C08": dict(
         text="Necessary structural conditions of 'grouping terminates with a partition', decided for every input because "
         "they are facts about data flow, not values: inter-procedural taint shows which infinite cost constants can "
